@@ -72,10 +72,10 @@ fn gen_members(rng: &mut Rng, first_id: u64, max: usize) -> Vec<Member> {
     let n = 1 + rng.usize(max);
     (0..n)
         .map(|i| {
-            let v = match rng.below(500) {
+            let v = match rng.below(1500) {
                 // long members: offsets beyond one and two bytes
-                0..=14 => { let l = 300 + rng.usize(1500); let mut t = vec![b'(']; t.extend((0..l).map(|_| b"abc xyz012"[rng.usize(10)])); t.push(b')'); ValText { kind: "string", text: t } }
-                15 => { let l = 66_000 + rng.usize(3000); let mut t = vec![b'<']; t.extend((0..l * 2).map(|_| b"0123456789ABCDEF"[rng.usize(16)])); t.push(b'>'); ValText { kind: "string", text: t } }
+                0..=44 => { let l = 300 + rng.usize(1500); let mut t = vec![b'(']; t.extend((0..l).map(|_| b"abc xyz012"[rng.usize(10)])); t.push(b')'); ValText { kind: "string", text: t } }
+                45 => { let l = 66_000 + rng.usize(3000); let mut t = vec![b'<']; t.extend((0..l * 2).map(|_| b"0123456789ABCDEF"[rng.usize(16)])); t.push(b'>'); ValText { kind: "string", text: t } }
                 _ => value_text(rng, 2),
             };
             Member { id: first_id + i as u64, text: v.text, sep: gen_sep(rng), kind: v.kind }
@@ -256,9 +256,9 @@ fn gen_twin_file(rng: &mut Rng, forced: Option<(&'static [u8], &'static str)>) -
     for _ in 0..nvals {
         let v = match forced {
             Some((t, k)) => ValText { kind: k, text: t.to_vec() },
-            None => match rng.below(500) {
-                0..=14 => { let l = 300 + rng.usize(1500); let mut t = vec![b'(']; t.extend((0..l).map(|_| b"abc xyz012"[rng.usize(10)])); t.push(b')'); ValText { kind: "string", text: t } }
-                15 => { let l = 66_000 + rng.usize(3000); let mut t = vec![b'<']; t.extend((0..l * 2).map(|_| b"0123456789ABCDEF"[rng.usize(16)])); t.push(b'>'); ValText { kind: "string", text: t } }
+            None => match rng.below(1500) {
+                0..=44 => { let l = 300 + rng.usize(1500); let mut t = vec![b'(']; t.extend((0..l).map(|_| b"abc xyz012"[rng.usize(10)])); t.push(b')'); ValText { kind: "string", text: t } }
+                45 => { let l = 66_000 + rng.usize(3000); let mut t = vec![b'<']; t.extend((0..l * 2).map(|_| b"0123456789ABCDEF"[rng.usize(16)])); t.push(b'>'); ValText { kind: "string", text: t } }
                 _ => value_text(rng, 2),
             },
         };
